@@ -26,8 +26,11 @@ func (p *rightPadder) Pad(data []byte, length int) []byte {
 		return data
 	}
 
-	padding := bytes.Repeat(p.pad, length-len(data))
-	return append(data, padding...)
+	// build the result in a new slice: appending to data would write into
+	// the spare capacity of the caller's slice
+	padded := make([]byte, 0, len(data)+len(p.pad)*(length-len(data)))
+	padded = append(padded, data...)
+	return append(padded, bytes.Repeat(p.pad, length-len(data))...)
 }
 
 func (p *rightPadder) Unpad(data []byte) []byte {
